@@ -296,6 +296,7 @@ PostitionedPart = typ.Tuple[int, int, str]
 
 def _iter_part_patterns(pattern: str) -> typ.Iterator[typ.Tuple[SortKey, PostitionedPart]]:
     used_fields: typ.Set[str] = set()
+    group_names: typ.Set[str] = set()
     for part_name, part_pattern in PART_PATTERNS.items():
         end_idx = 0
         while True:
@@ -305,10 +306,13 @@ def _iter_part_patterns(pattern: str) -> typ.Iterator[typ.Tuple[SortKey, Postiti
 
             field = PATTERN_PART_FIELDS[part_name]
             if field in used_fields:
-                named_part_pattern = f"(?P<{field}_{len(used_fields)}>{part_pattern})"
+                # NOTE: a field may occur any number of times, each group needs its own name
+                group_name = f"{field}_{len(group_names)}"
             else:
-                named_part_pattern = f"(?P<{field}>{part_pattern})"
+                group_name = field
+            named_part_pattern = f"(?P<{group_name}>{part_pattern})"
             used_fields.add(field)
+            group_names.add(group_name)
 
             end_idx         = start_idx + len(part_name)
             sort_key        = (-end_idx, -len(part_name))
